@@ -462,8 +462,16 @@ def _piecewise(ctx, p, rng):
             d2[0] = data[0] + rng.choice([-1.0, 1.0], size=data[0].shape) * rng.uniform(0.2, 1.0, size=data[0].shape)
             d2 *= [1.0, 1e17, 1e-17, 1e300][(p['entry'] // 2) % 4]          # operands of very different magnitude: the selected one comes back exactly
             z = UTPM(d2.copy())
-            form = int(rng.integers(6))
-            if form == 1:
+            form = int(rng.integers(8))
+            if form >= 6:
+                # a constant array with MORE axes than the polynomial (NumPy broadcasts x_0 against it): leading axis of length 2, 3
+                # or P (a length that could be mistaken for the direction axis); |c| <= 0.15 < 0.4 <= |x_0|: no tie
+                k = [2, 3, P][int(rng.integers(3))]
+                c = (0.05 * (1 + np.arange(k * int(np.prod(shape, dtype=int))) % 3) * rng.choice([-1.0, 1.0], size=k * int(np.prod(shape, dtype=int)))).reshape((k,) + tuple(shape))
+                y = getattr(algopy, name)(x, c) if form == 6 else getattr(algopy, name)(c, x)
+                data = np.broadcast_to(data.reshape((D, P, 1) + tuple(shape)), (D, P, k) + tuple(shape)).copy()
+                d2 = np.zeros_like(data); d2[0] = c
+            elif form == 1:
                 # a constant second operand (maximum(x, 0.): |x_0| >= 0.4, no tie), also as the first operand
                 c = [0.0, 0, np.float64(0.1), -0.25][int(rng.integers(4))]
                 d2 = np.zeros_like(data); d2[0] = c
